@@ -1,5 +1,6 @@
 import OV.Model.C20Save
 import OV.Lemmas.C20Save
+import OV.Lemmas.C20Round
 /-!
 # C20 — saving with external data round-trips and never disturbs the in-memory model
 
@@ -217,49 +218,72 @@ theorem layout_readback (pre : Bytes) (bs : List Bytes) (i : Nat) (h : i < bs.le
   rw [this] at h2 h3
   exact ⟨e, h1, h2, h3⟩
 
-/-- **Round trip of the data file, fault-free run** (`_partial`: in-memory tensors; see design_notes/C20.md for what the
-tie, not a theorem, covers).  Running the real write sequence of `_write_external_data` (open, per tensor: optional
-callback, zero padding, `tofile` by either the NumPy or the `write` path, close) with no fault on any state whose
-tensors `ts = (name, object, bytes)` are in memory: the call succeeds, tensor objects and `const_value`s are untouched,
-and **reading `length` bytes at `offset` of the data file — with the offsets of `layout` that the written proto
-records — returns every tensor's bytes**, for all sizes and counts. -/
-theorem roundtrip_data_file_partial (dest : String) (verbose : Bool) (ts : List (String × Nat × Bytes)) (s : St)
-    (hk : s.k = none) (hobjs : ∀ x ∈ ts, ∃ np, s.heap[x.2.1]? = some (.mem x.2.2 np)) :
-    ∃ s', writeExternalData dest verbose (mkItems 0 ts) s = (.ok (), s') ∧ s'.heap = s.heap ∧ s'.cv = s.cv ∧
-      ∀ (i : Nat) (h : i < ts.length),
-        ∃ e, (layout 0 (ts.map (·.2.2.length)))[i]? = some e ∧ FS.read s'.fs dest e.1 e.2 = some (ts[i]).2.2 := by
-  obtain ⟨s', h1, hc⟩ := writeExternalData_ok dest verbose ts s hk hobjs
-  refine ⟨s', h1, hc.heap, hc.cv, ?_⟩
-  intro i h
-  have hi : i < (ts.map (·.2.2)).length := by simpa using h
-  obtain ⟨e, he1, he2, he3⟩ := layout_readback [] (ts.map (·.2.2)) i hi
-  simp only [List.length_nil, List.map_map, List.nil_append, List.getElem_map] at he1 he2 he3
-  refine ⟨e, he1, ?_⟩
-  unfold FS.read
-  by_cases h0 : e.2 = 0
-  · simp only [h0, if_true]
-    rw [h0] at he2
-    have : (ts[i]).2.2 = [] := List.eq_nil_of_length_eq_zero he2.symm
-    rw [this]
-  · simp only [h0, if_false]
-    rw [hc.fs, get?_set_eq]
-    simp only []
-    have hmem : e ∈ layout 0 (List.map (List.length ∘ fun x => x.2.2) ts) := List.mem_of_getElem? he1
-    have hwithin := layout_within 0 _ e hmem
-    have hlen := image_length 0 (ts.map (·.2.2))
-    simp only [List.map_map, Nat.zero_add] at hlen
-    rw [hlen]
-    simp only [hwithin, if_true, he3]
+/-- **Round trip, end to end** (fault-free run, outside the C20-D1 region).  Hypotheses: the model has as many
+`const_value` slots as initializers, and `bs` lists, initializer by initializer, the bytes its tensor denotes —
+`All2 (InitOK dest fs heap) cv bs` (`OV.Lemmas.C20Round`): every initializer is initialized with a tensor object that is
+either in memory or a *valid* external tensor that does **not live in the destination data file** and is readable on `fs`
+(its bytes are `FS.read fs file off len`).  Conclusion: `save_model_with_external_data` succeeds, and `load` of what it
+left on the file system — read the written proto; for each entry take the inline bytes or read `(location, offset, length)`
+back from the file system — returns **for every initializer exactly its name, graph level and bytes, in the original
+initializer order** (`zip3 sig bs`).  Covered by the proof: the guard, classification by the 256-byte threshold (small
+in-memory kept inline, small external loaded to memory, everything larger written out), the stable sort (as a membership-
+preserving rearrangement), offsets/alignment/padding, all three `tofile` paths incl. the chunked copy of external tensors,
+the new `ExternalTensor`s restored to input order, the pointer swap, `serialize`, the model-file write, and the `finally`. -/
+theorem roundtrip (deep : Bool) (m : Model) (dir name : String) (verbose : Bool) (fs : FS) (bs : List Bytes)
+    (hsig : m.sig.length = m.cv.length)
+    (hinit : All2 (InitOK (joinPath dir (name ++ ".data")) fs m.heap) m.cv bs) :
+    (runSave deep m dir name verbose fs none).res = .ok () ∧
+    load (runSave deep m dir name verbose fs none).st.fs dir name = some (zip3 m.sig bs) := by
+  obtain ⟨s', h1, h2⟩ := save_load_ok deep m.sig m.tnames dir name verbose (init m fs none) bs rfl hsig hinit
+  unfold runSave
+  rw [h1]
+  exact ⟨rfl, h2⟩
 
-example : ∃ (ts : List (String × Nat × Bytes)) (s : St), s.k = none ∧ ts.length = 2 ∧
-    ∀ x ∈ ts, ∃ np, s.heap[x.2.1]? = some (.mem x.2.2 np) :=
-  ⟨[("a", 0, [1, 2, 3]), ("b", 1, [])], { k := none, fs := [], heap := [.mem [1, 2, 3] true, .mem [] false], cv := [] },
-   rfl, rfl, by
-    intro x hx
-    simp only [List.mem_cons, List.mem_nil_iff, or_false] at hx
-    rcases hx with rfl | rfl
-    · exact ⟨true, rfl⟩
-    · exact ⟨false, rfl⟩⟩
+example : ∃ (m : Model) (fs : FS) (bs : List Bytes), m.sig.length = m.cv.length ∧ bs.length = 3 ∧
+    All2 (InitOK (joinPath "" ("m" ++ ".data")) fs m.heap) m.cv bs :=
+  ⟨{ sig := [("a", false), ("e", true), ("a2", false)], cv := [some 0, some 1, some 0],
+     heap := [.mem [1, 2, 3] true, .ext "w.bin" 1 2 true] },
+   [("w.bin", .data [9, 8, 7])], [[1, 2, 3], [8, 7], [1, 2, 3]], rfl, rfl,
+   .cons ⟨0, _, rfl, rfl, rfl⟩ (.cons ⟨1, _, rfl, rfl, ⟨rfl, by decide, by decide⟩⟩ (.cons ⟨0, _, rfl, rfl, rfl⟩ .nil))⟩
+
+/-- **What a fault leaves on disk — the statement that can honestly be made.**  For every fault plan `k`: either the
+file system after the call *is* the file system before it, or the trace contains an open-for-write call `openW f` at an
+index `i` that is not the faulted call (`k ≠ some i`) — i.e. some `open(…, "wb")` really succeeded.  The first
+open-for-write of the sequence is the data file's (trace validated by the tie), so **a fault at or before the
+`open(<name>.data, "wb")` call leaves every file untouched**; after it, only the two destination files can differ
+(`fs_frame`) and nothing more is claimed about them (`fault_leaves_no_claim`). -/
+theorem fs_unchanged_unless_opened (deep : Bool) (m : Model) (dir name : String) (verbose : Bool) (fs : FS) (k : Option Nat) :
+    (runSave deep m dir name verbose fs k).st.fs = fs ∨
+    ∃ i f, (runSave deep m dir name verbose fs k).st.trace[i]? = some (Op.openW f) ∧ k ≠ some i := by
+  have hinv := inv_save deep m.sig m.tnames dir name verbose
+    (stable_untouched fs k (joinPath dir (name ++ ".data")) (joinPath dir name)) (init m fs k)
+    ⟨rfl, rfl, Or.inl ⟨rfl, rfl⟩⟩
+  unfold runSave
+  cases hs : save deep m.sig m.tnames dir name verbose (init m fs k) with
+  | mk r s' =>
+    rw [hs] at hinv
+    obtain ⟨_, _, h⟩ := hinv
+    rcases h with ⟨h, _⟩ | h
+    · exact Or.inl h
+    · exact Or.inr h
+
+/-- Corollary in the "fault before the first write" form: if every open-for-write call in the trace is the faulted
+call itself (in particular if there is none), nothing on the file system changed. -/
+theorem fault_before_first_write_leaves_fs (deep : Bool) (m : Model) (dir name : String) (verbose : Bool) (fs : FS)
+    (k : Option Nat)
+    (h : ∀ i f, (runSave deep m dir name verbose fs k).st.trace[i]? = some (Op.openW f) → k = some i) :
+    (runSave deep m dir name verbose fs k).st.fs = fs := by
+  rcases fs_unchanged_unless_opened deep m dir name verbose fs k with h1 | ⟨i, f, h2, h3⟩
+  · exact h1
+  · exact absurd (h i f h2) h3
+
+/-- Non-vacuity of both sides on the same model: a fault at call 0 (the data file's open) leaves the pre-existing files
+alone; a fault at call 1 does not. -/
+example :
+    let m : Model := { sig := [("b", false)], cv := [some 0], heap := [.mem (List.replicate 300 9) false] }
+    let fs : FS := [("m.data", .data [1, 2, 3]), ("m", .data [4])]
+    (runSave false m "" "m" false fs (some 0)).st.fs = fs ∧ (runSave false m "" "m" false fs (some 1)).st.fs ≠ fs := by
+  decide +kernel
 
 /-- A complete concrete round trip through the whole model (guard, classification with the 256-byte threshold, an
 already-external tensor living in the destination file, sort, write, swap, serialize, load): every initializer loads
